@@ -7,6 +7,7 @@ spec/Assembly.tla       catalogue of spaces (dof signature, polynomial content),
 spec/AssemblyCheck.tla  TLC judges the dumps of the real assemblers: sparsity contract, route agreement, AssembleTwice,
                         symmetry, kernel, MassSum = Volume, Bilinear(u,v) / functional values as exact scaled integers (V)
 harness/c16_assembly_*.cpp (common/vasm16*.hpp)  execute the jobs on the real classes and measure
+harness/c16_assembly_2l.cpp  two-level (inter-mesh) patterns on permuted meshes + couplings of the grid transfer (TwoLevelVerdict)
 """
 import json, os, shutil, glob, time
 import concurrent.futures as cf
@@ -24,6 +25,7 @@ BINARIES = {
     ("hypercube", 3): "c16_assembly_h3",
     ("simplex", 3): "c16_assembly_s3",
 }
+TWOLEVEL_BIN = "c16_assembly_2l"
 SPECIAL_ROUTES = ["burgers", "burgersjob", "voxel", "voxeldefo"]
 SPECIAL_BINS = {
     ("hypercube", 2): "c16_assembly_sq2",
@@ -90,6 +92,20 @@ def mesh_catalogue(tier):
     return M
 
 
+TWOLEVEL = {}   # (shape, dim, space) -> the two-level plan generated by the specification (degree, permutation pairs)
+
+
+def twolevel_meshes(tier):
+    """(coarse mesh name, which set of permutation pairs): the coarse meshes are taken from the catalogue"""
+    th = tier == "thorough"
+    full = {"usq_L1", "utri_L1"} | ({"ucube_L1", "circle5_L0", "utet_L0"} if th else set())
+    cross = {"usq_L0", "usq_L1", "twoquad", "circle5_L0", "utri_L0", "utri_L1", "twotria", "ucube_L0", "utet_L0"}
+    if th:
+        cross |= {"usq_L2", "ucube_L1", "struct_4x2", "parallelograms", "circle5_L1", "l_shape_quad_L0", "utri_L2", "circtri4_L0", "l_shape_tria_L0", "struct_2x1x4",
+                  "square_circle_hole_quad_9_L0", "usq_L3"}
+    return full, cross
+
+
 def gen_plans(chk, tier):
     """TLC enumerates the plans with their job lists"""
     jobs = []
@@ -113,6 +129,8 @@ def gen_plans(chk, tier):
                 for p in r.printed:
                     pl = p["plan"]
                     plans[(pl["shape"], pl["dim"], pl["class"], pl["test"], pl["trial"])] = p["jobs"]
+                    for tl in p.get("twolevel", []):
+                        TWOLEVEL[(pl["shape"], pl["dim"], tl["space"])] = tl
     finally:
         for cfg, _, _ in jobs:
             try:
@@ -172,11 +190,17 @@ def restrict(job, routes):
 
 
 def case_weight(c):
+    if "fine" in c:
+        return sum(c["fine"]["n"]) * 6 + len(c["coup"].get("pairs", [])) // 4
     return sum(c["n"]) * 4 + sum(len(j["obs"].get("ids", [])) for j in c["jobs"]) + sum(len(j["obs"].get("coup", {}).get("pairs", [])) for j in c["jobs"]) // 4
 
 
 def sig_of(c, fl):
     job = c["jobs"][fl["j"] - 1]["spec"] if fl["j"] >= 1 else None
+    if "fine" in c:
+        d = fl["d"]
+        return {"kind": "twolevel", "pred": fl["p"], "shape": c["shape"], "dim": c["dim"], "class": "", "test": c["space"], "trial": c["space"],
+                "mesh": c["meshname"], "op": "2lvl", "detail": d if isinstance(d, str) and len(d) < 24 else "", "fperm": c["fperm"], "cperm": c["cperm"]}
     s = {"kind": "assembly", "pred": fl["p"], "shape": c["shape"], "dim": c["dim"], "class": c["class"], "test": c["test"], "trial": c["trial"],
          "mesh": c["meshname"], "op": "", "detail": ""}
     if job:
@@ -210,7 +234,8 @@ def run(chk):
 def _run(chk, tier, gdir):
     have = {k: b for k, b in BINARIES.items() if os.path.exists(os.path.join(vlib.VERIF, "harness", b + ".cpp"))}
     specials = {k: b for k, b in SPECIAL_BINS.items() if os.path.exists(os.path.join(vlib.VERIF, "harness", b + ".cpp"))}
-    targets = sorted(set(have.values())) + sorted(set(specials.values()))
+    twolevel = os.path.exists(os.path.join(vlib.VERIF, "harness", TWOLEVEL_BIN + ".cpp"))
+    targets = sorted(set(have.values())) + sorted(set(specials.values())) + ([TWOLEVEL_BIN] if twolevel else [])
     paths = dict(zip(targets, vlib.build(targets, jobs=6)))
     plans = gen_plans(chk, tier)
     if not plans:
@@ -332,12 +357,52 @@ def _run(chk, tier, gdir):
     margin = margin[0]
     chk.extra["max_projection_margin"] = margin
 
+    # ---- two-level (inter-mesh) sparsity contract: coarse mesh + its refinement, every permutation pair of the plan ----
+    dumps2 = []
+    if twolevel and TWOLEVEL:
+        fullset, crossset = twolevel_meshes(tier)
+        cs2 = []
+        for name, shape, dim, cls, src, ncells in catalogue:
+            if name not in fullset and name not in crossset:
+                continue
+            if dim == 3 and shape == "hypercube" and cls != "box":
+                continue
+            # quick tier: the full 8 x 8 table for one space per mesh, the cross (one level permuted, or both alike) for all spaces
+            for (psh, pd, space), tl in sorted(TWOLEVEL.items()):
+                if (psh, pd) != (shape, dim):
+                    continue
+                pairs = tl["full"] if (name in fullset and (tier == "thorough" or space == "lagrange2")) else tl["cross"]
+                if name not in crossset and name in fullset and tier != "thorough" and space != "lagrange2":
+                    continue
+                mult = (4 if dim == 2 else (8 if shape == "hypercube" else 12))
+                for fp, cp in pairs:
+                    cid = "%s_2lvl_%s_%s_%s" % (name, space, fp, cp)
+                    c = {"kind": "2lvl", "id": cid, "shape": shape, "dim": dim, "mesh": src, "meshname": name, "space": space, "deg": tl["deg"],
+                         "fperm": fp, "cperm": cp, "dense": ncells * mult <= 300, "out": os.path.join(gdir, cid + ".json"), "jobs": []}
+                    cs2.append(c)
+                    bycase[cid] = c
+        t0 = time.time()
+        res = vlib.run_cases(paths[TWOLEVEL_BIN], cs2, tmo=300, shards=8)
+        vlib.log("[c16] %s: %d two-level cases, %.1fs" % (TWOLEVEL_BIN, len(cs2), time.time() - t0))
+        for c, r in zip(cs2, res):
+            if r.get("ok") is True:
+                dumps2.append(c)
+            else:
+                oc = r.get("outcome", "bad")
+                desc = r.get("why") or ("outcome %s: %s" % (oc, (r.get("stderr") or "")[:600]))
+                sg = {"kind": "twolevel", "pred": "harness:" + str(oc), "shape": c["shape"], "dim": c["dim"], "class": "", "test": c["space"], "trial": c["space"],
+                      "mesh": c["meshname"], "op": "2lvl", "detail": "", "fperm": c["fperm"], "cperm": c["cperm"]}
+                chk.violation(sg, "%s: %s" % (c["id"], " ".join(desc.split())[:500]),
+                              {"kind": "case", "harness": TWOLEVEL_BIN, "case": {k: c[k] for k in c if k != "out"}, "result": r})
+        chk.extra["twolevel_cases"] = len(cs2)
+
     # ---- TLC judges every dump ----
     full = []
-    for c in dumps:
+    for c in dumps + dumps2:
         with open(c["out"]) as f:
             d = json.loads(f.readline())
         d["meshname"] = c["meshname"]
+        d.setdefault("jobs", [])
         full.append(d)
     verdicts = judge_batches(chk, full, max_procs=6,
                                         target_weight=1 if os.environ.get("C16_PROFILE") else (30000 if tier == "quick" else 60000))
@@ -352,7 +417,7 @@ def _run(chk, tier, gdir):
         nids += v["nids"]
         nundec += v["nundec"]
         njobs = len(d["jobs"])
-        chk.count(d["id"], njobs > 0, n=max(1, njobs))
+        chk.count(d["id"], njobs > 0 or "fine" in d, n=max(1, njobs))
         for fl in v["fails"]:
             if fl["p"].startswith("MACHINERY"):
                 raise vlib.MachineryError("%s: %s" % (d["id"], fl))
@@ -402,6 +467,19 @@ def replay(obj):
             if not c or c["id"] in seen:
                 continue
             seen.add(c["id"])
+            if c.get("kind") == "2lvl":
+                binary, = vlib.build([TWOLEVEL_BIN])
+                c = dict(c, out=os.path.join(tmp, c["id"] + ".json"))
+                r = vlib.run_cases(binary, [c], tmo=300, shards=1)[0]
+                if r.get("ok") is not True:
+                    print(json.dumps({"case": c["id"], "harness": r})[:600]); bad += 1; continue
+                with open(c["out"]) as f:
+                    d = json.loads(f.readline())
+                d["meshname"] = c["meshname"]; d["jobs"] = []
+                vd = judge_batches(chk, [d], max_procs=1)[d["id"]]
+                print(json.dumps({"case": c["id"], "fails": vd["fails"][:8]})[:1200])
+                bad += 1 if vd["fails"] else 0
+                continue
             key = (c["shape"], c["dim"])
             special = any(j["k"] in ("blk", "gd", "bpar") or set(j["routes"]) & set(SPECIAL_ROUTES) for j in c["jobs"])
             b = (SPECIAL_BINS if special else BINARIES)[key]
